@@ -4,12 +4,12 @@ from vlib import core, gen, runsc
 from vlib.props import c10, c06
 
 LEVEL = "other"
-EXPLANATION = ("Partial proof + search. Panic-capable constructs are classified by recognisable guards (index by the key of a range over the same slice or into a slice made with that length, sort callback, constant index or slice bound under a length check, comma-ok assertion); only the unclassifiable ones are listed and reviewed; recursion is a cycle of the static call graph. Proved in Lean: the complete typed inventory of panic-capable constructs (index, slice, unchecked type assertion, explicit panic, Must* call, "
-               "strings.Repeat) and of loops in /repo's own code, regenerated with go/types on every run, equals the reviewed list (panic_sites_discharged, loops_bounded, "
+EXPLANATION = ("Partial proof + search. Panic-capable constructs are classified by recognisable guards (index by the key of a range over the same slice or into a slice made with that length, sort callback, constant index or slice bound under a length check — also through short-circuit evaluation and string emptiness —, an index found by a search in the same slice and known non-negative, an unsigned index under a bound check, SubexpIndex of a declared group into a non-nil submatch, slices past a checked prefix or a strings index, comma-ok assertion, Must* calls that only run before main() or belong to the tool's own container); only the unclassifiable ones are listed, by function and construct with numbered locals, and must be among the reviewed ones (inclusion: a construct that disappears is no obligation); recursion is a cycle of the static call graph. Proved in Lean: the complete typed inventory of panic-capable constructs (index, slice, unchecked type assertion, explicit panic, Must* call, "
+               "strings.Repeat) and of loops in /repo's own code, regenerated with go/types on every run, is covered by the recognised classes and the reviewed list (panic_sites_discharged, loops_bounded, "
                "self_calls_reviewed: decide), the guards of the non-obvious ones hold in the model (toExpr_guard, goCode_guard, verbose_services_are_steps, repeat_count_nonneg, "
                "step_names_pinned) and the model's command ends with exit 0 or 1 (run_total). NOT provable in this family: panics and hangs inside yaml.v3, cobra, gofmt/goimports, "
                "gonum's cycle enumeration and the runtime library. For those the check only SEARCHES: schema-aware type confusions in every position, deep nesting, long names, "
-               "anchors/aliases/tags, mutated bytes from a corpus of valid and invalid configurations, arbitrary glob patterns and flag combinations, run in-process (panics recovered "
+               "anchors/aliases/tags, structural stress through the CLI under a timeout (cycles of every kind with references into them from every position, explicit scopes over dangling references and placeholders, 40-layer diamonds, 1500-long chains), file-system cases (dangling links, link loops, output paths of 20-250 characters), mutated bytes from a corpus of valid and invalid configurations, arbitrary glob patterns and flag combinations, run in-process (panics recovered "
                "and reported) and through the CLI binary under a timeout, each judged against exit status in {0,1} and the output-file contract of C10.")
 TEXT = EXPLANATION
 TECHNIQUE = "Lean 4 theorems (decide) over a regenerated typed inventory of panic/loop sites + guards in the model; differential mutation fuzzing of the in-process command and the CLI under a timeout as the search"
